@@ -177,7 +177,7 @@ func jobC09(c *rt.Ctx) {
 					kind          string
 				}
 				var comps []comp
-				for _, kind := range []string{"key31", "sig63", "msg63"} {
+				for _, kind := range []string{"key31", "sig63", "msg63", "S+L"} {
 					if kind == "msg63" && vs.v != ref.Ph {
 						continue
 					}
@@ -194,6 +194,12 @@ func jobC09(c *rt.Ctx) {
 						m.sig = append([]byte{}, m.sig[:63]...)
 					case "msg63":
 						m.msg = append([]byte{}, m.msg[:63]...)
+					case "S+L":
+						// flagged by the range check without aborting the pre-check loops
+						m.sig = append([]byte{}, m.sig...)
+						S := ref.LE(m.sig[32:])
+						S.Add(S, ref.L)
+						copy(m.sig[32:], ref.ToLE(S, 32))
 					}
 					entries[cp.mal] = m
 					_, valid, err, bpv := implBatch(entries, vs, false, rt.NewRng(c.Seed, "c09c"))
